@@ -7,7 +7,7 @@ and option changes between the halves of an exchange (Req_sim2, resize in Msgq/L
 from vlib import *
 from checks.agg import run_members
 
-MEMBERS = ["c18", "c17", "c06", "c08", "c05", "c09", "c04", "c07"]
+MEMBERS = ["c18", "c17", "c06", "c08", "c05", "c09", "c04", "c07", "c11"]
 
 
 def concerns(sig, text):
